@@ -1,5 +1,677 @@
 /-
-C19 — property theorems (stub; nothing proved yet).
+C19 — stopping conditions stop the run when, and only when, they are met.
+Property theorems about `KawinV.StopCond` (hand model of StoppingConditions.py, the and/or
+combination of KWNBase.postProcess, the DESolver loop, KWNBase.reset and TTPCalculator._getStopTime;
+tied to the source by the correspondence check tools/corr/C19.py).
+α is any linearly ordered field; histories are arbitrary functions of the row index, so every
+statement holds for histories of every length.
 -/
+import KawinV.Model.StopCond
+import Mathlib.Tactic.Ring
+import Mathlib.Tactic.Linarith
+import Mathlib.Tactic.FieldSimp
+import Mathlib.Algebra.Order.Field.Basic
+
+set_option linter.unusedSectionVars false
+set_option linter.unusedVariables false
+set_option linter.unusedSimpArgs false
+
 namespace KawinV.Props.C19
+open KawinV.StopCond
+
+variable {α : Type} [Field α] [LinearOrder α] [IsStrictOrderedRing α]
+
+/-! ### every quantity / phase / element: what `_poll` reads -/
+
+/-- **poll**: `_poll(model, n)` is row n, column `col` of the array the condition names. -/
+theorem poll_reads (d : PData α) (c : Cond α) (n : Nat) : poll d c n = d.array c.q n c.col := rfl
+
+theorem poll_volFrac (d : PData α) (c : Cond α) (n : Nat) (h : c.q = .volFrac) :
+    poll d c n = d.volFrac n c.col := by unfold poll; rw [h]; rfl
+theorem poll_radius (d : PData α) (c : Cond α) (n : Nat) (h : c.q = .radius) :
+    poll d c n = d.Ravg n c.col := by unfold poll; rw [h]; rfl
+theorem poll_drivingForce (d : PData α) (c : Cond α) (n : Nat) (h : c.q = .drivingForce) :
+    poll d c n = d.drivingForce n c.col := by unfold poll; rw [h]; rfl
+theorem poll_nucRate (d : PData α) (c : Cond α) (n : Nat) (h : c.q = .nucRate) :
+    poll d c n = d.nucRate n c.col := by unfold poll; rw [h]; rfl
+theorem poll_density (d : PData α) (c : Cond α) (n : Nat) (h : c.q = .density) :
+    poll d c n = d.precipitateDensity n c.col := by unfold poll; rw [h]; rfl
+theorem poll_composition (d : PData α) (c : Cond α) (n : Nat) (h : c.q = .composition) :
+    poll d c n = d.composition n c.col := by unfold poll; rw [h]; rfl
+
+/-- nothing else is read: two histories that agree on that one cell give the same value -/
+theorem poll_local (d d' : PData α) (c : Cond α) (n : Nat)
+    (h : d.array c.q n c.col = d'.array c.q n c.col) : poll d c n = poll d' c n := h
+
+/-- **selection**: a name resolves to the first position holding it … -/
+theorem indexOf_some (s : String) (names : List String) (i : Nat) (h : indexOf s names = some i) :
+    names[i]? = some s ∧ ∀ j, j < i → names[j]? ≠ some s := by
+  induction names generalizing i with
+  | nil => simp [indexOf] at h
+  | cons x xs ih =>
+    unfold indexOf at h
+    split at h
+    · next hx =>
+      have : i = 0 := by simpa using h.symm
+      subst this
+      exact ⟨by simp [hx], by intro j hj; omega⟩
+    · next hx =>
+      cases hr : indexOf s xs with
+      | none => simp [hr] at h
+      | some k =>
+        simp [hr] at h
+        subst h
+        obtain ⟨h1, h2⟩ := ih k hr
+        refine ⟨by simpa using h1, ?_⟩
+        intro j hj
+        cases j with
+        | zero => simpa using hx
+        | succ j => simpa using h2 j (by omega)
+
+/-- … and fails (the Python call raises) exactly when the name is not in the list. -/
+theorem indexOf_none (s : String) (names : List String) : indexOf s names = none ↔ s ∉ names := by
+  induction names with
+  | nil => simp [indexOf]
+  | cons x xs ih =>
+    unfold indexOf
+    by_cases hx : x = s
+    · simp [hx]
+    · simp [hx, ih, Ne.symm hx]
+
+/-- no name given: column 0 -/
+theorem columnOf_default (phases elements : List String) (q : Quantity) :
+    columnOf phases elements q none = some 0 := by
+  cases q <;> rfl
+
+/-- the composition condition looks its name up among the *elements* … -/
+theorem columnOf_composition (phases elements : List String) (s : String) :
+    columnOf phases elements .composition (some s) = indexOf s elements := rfl
+
+/-- … every other condition among the *phases*. -/
+theorem columnOf_phase (phases elements : List String) (q : Quantity) (s : String)
+    (hq : q ≠ .composition) : columnOf phases elements q (some s) = indexOf s phases := by
+  cases q <;> first | rfl | exact absurd rfl hq
+
+/-! ### both inequalities -/
+
+theorem holds_gt (v x : α) : holds .gt v x = true ↔ v < x := by simp [holds]
+theorem holds_lt (v x : α) : holds .lt v x = true ↔ x < v := by simp [holds]
+theorem holds_gt_false (v x : α) : holds .gt v x = false ↔ x ≤ v := by simp [holds]
+theorem holds_lt_false (v x : α) : holds .lt v x = false ↔ v ≤ x := by simp [holds]
+
+/-! ### latch -/
+
+/-- **latch, one test**: a satisfied condition is not touched by `testCondition`. -/
+theorem test_of_sat (d : PData α) (n : Nat) (c : Cond α) (l : Latch α) (h : l.sat = true) :
+    test d n c l = l := by
+  unfold test; simp [h]
+
+/-- **latch, any further tests** (at any rows, in any order, any number): neither the flag nor
+the reported time changes. -/
+theorem latch_forever (d : PData α) (c : Cond α) (l : Latch α) (h : l.sat = true) (ns : List Nat) :
+    ns.foldl (fun l n => test d n c l) l = l := by
+  induction ns with
+  | nil => rfl
+  | cons n ns ih => simp only [List.foldl_cons]; rw [test_of_sat d n c l h]; exact ih
+
+/-- **when and only when**, one test: satisfied after the test iff it was satisfied before or
+the monitored value of the current row is beyond the threshold. -/
+theorem test_sat_iff (d : PData α) (n : Nat) (c : Cond α) (l : Latch α) :
+    (test d n c l).sat = true ↔ l.sat = true ∨ holds c.dir c.value (poll d c n) = true := by
+  unfold test
+  by_cases hl : l.sat = true
+  · simp [hl]
+  · have hl' : l.sat = false := by simpa using hl
+    by_cases hh : holds c.dir c.value (poll d c n) = true
+    · simp only [hl', hh, Bool.false_eq_true, if_false, if_true]
+      split <;> simp
+    · simp [hl', hh]
+
+/-- not met on this row: flag stays clear and the reported time is not touched -/
+theorem test_not_met (d : PData α) (n : Nat) (c : Cond α) (l : Latch α) (hl : l.sat = false)
+    (hh : holds c.dir c.value (poll d c n) = false) : test d n c l = ⟨false, l.time⟩ := by
+  unfold test; simp [hl, hh]
+
+/-- in a run (tests at rows 1..k): once satisfied at step k, identical at every later step -/
+theorem latchAt_stable (d : PData α) (c : Cond α) (l : Latch α) (k m : Nat)
+    (h : (latchAt d c l k).sat = true) (hm : k ≤ m) : latchAt d c l m = latchAt d c l k := by
+  induction m with
+  | zero => have : k = 0 := by omega
+            subst this; rfl
+  | succ m ih =>
+    rcases Nat.lt_or_ge m k with hlt | hge
+    · have : k = m + 1 := by omega
+      subst this; rfl
+    · have e := ih hge
+      show test d (m+1) c (latchAt d c l m) = latchAt d c l k
+      rw [e, test_of_sat _ _ _ _ h]
+
+/-- **when and only when**, whole run: satisfied after k steps iff it was satisfied at the start
+or the monitored value was beyond the threshold on one of the rows 1..k. -/
+theorem latchAt_sat_iff (d : PData α) (c : Cond α) (l : Latch α) (k : Nat) :
+    (latchAt d c l k).sat = true ↔
+      l.sat = true ∨ ∃ j, 1 ≤ j ∧ j ≤ k ∧ holds c.dir c.value (poll d c j) = true := by
+  induction k with
+  | zero => simp [latchAt]
+  | succ k ih =>
+    show (test d (k+1) c (latchAt d c l k)).sat = true ↔ _
+    rw [test_sat_iff, ih]
+    constructor
+    · rintro ((h | ⟨j, h1, h2, h3⟩) | h)
+      · exact Or.inl h
+      · exact Or.inr ⟨j, h1, by omega, h3⟩
+      · exact Or.inr ⟨k+1, by omega, le_refl _, h⟩
+    · rintro (h | ⟨j, h1, h2, h3⟩)
+      · exact Or.inl (Or.inl h)
+      · rcases Nat.lt_or_ge j (k+1) with hj | hj
+        · exact Or.inl (Or.inr ⟨j, h1, by omega, h3⟩)
+        · have : j = k+1 := by omega
+          subst this; exact Or.inr h3
+
+/-- never beyond the threshold on rows 1..k: the latch is untouched (a cleared condition still
+reports −1, which is what the TTP calculator stores for "not reached") -/
+theorem latchAt_never (d : PData α) (c : Cond α) (l : Latch α) (k : Nat) (hl : l.sat = false)
+    (h : ∀ i, 1 ≤ i → i ≤ k → holds c.dir c.value (poll d c i) = false) :
+    latchAt d c l k = ⟨false, l.time⟩ := by
+  induction k with
+  | zero => cases l; simp_all [latchAt]
+  | succ k ih =>
+    show test d (k+1) c (latchAt d c l k) = _
+    rw [ih (fun i h1 h2 => h i h1 (by omega))]
+    exact test_not_met d (k+1) c ⟨false, l.time⟩ rfl (h (k+1) (by omega) (le_refl _))
+
+/-- the latch of a run is decided on the **first** row j ≥ 1 beyond the threshold, by the single
+test made on that row, and is the same after every later step -/
+theorem latchAt_first (d : PData α) (c : Cond α) (l : Latch α) (j k : Nat) (hj : 1 ≤ j) (hjk : j ≤ k)
+    (hl : l.sat = false)
+    (hbefore : ∀ i, 1 ≤ i → i < j → holds c.dir c.value (poll d c i) = false)
+    (hat : holds c.dir c.value (poll d c j) = true) :
+    latchAt d c l k = test d j c ⟨false, l.time⟩ := by
+  obtain ⟨j', rfl⟩ : ∃ j', j = j' + 1 := ⟨j - 1, by omega⟩
+  have hprev := latchAt_never d c l j' hl (fun i h1 h2 => hbefore i h1 (by omega))
+  have hj' : latchAt d c l (j'+1) = test d (j'+1) c ⟨false, l.time⟩ := by
+    show test d (j'+1) c (latchAt d c l j') = _
+    rw [hprev]
+  have hs : (latchAt d c l (j'+1)).sat = true := by
+    rw [hj', test_sat_iff]; exact Or.inr hat
+  rw [latchAt_stable d c l (j'+1) k hs hjk, hj']
+
+/-! ### crossing time -/
+
+/-- **linear interpolant**: the reported time is the abscissa at which the straight line through
+(t_prev, v_prev), (t_cur, v_cur) takes the threshold value … -/
+theorem crossTime_interp (tp tc vp vc v : α) (h : vc ≠ vp) :
+    (crossTime tp tc vp vc v - tp) * (vc - vp) = (tc - tp) * (v - vp) := by
+  unfold crossTime
+  have : vc - vp ≠ 0 := sub_ne_zero.mpr h
+  field_simp
+  ring
+
+/-- … i.e. the interpolated value at the reported time *is* the threshold. -/
+theorem crossTime_value (tp tc vp vc v : α) (ht : tp ≠ tc) (h : vc ≠ vp) :
+    vp + (vc - vp) * ((crossTime tp tc vp vc v - tp) / (tc - tp)) = v := by
+  unfold crossTime
+  have h1 : vc - vp ≠ 0 := sub_ne_zero.mpr h
+  have h2 : tc - tp ≠ 0 := sub_ne_zero.mpr (Ne.symm ht)
+  field_simp
+  ring
+
+/-- **in the step, GREATER_THAN**: previous value not above the threshold, current value above
+it ⇒ t_prev ≤ reported time ≤ t_cur. -/
+theorem crossTime_mem_gt (tp tc vp vc v : α) (ht : tp ≤ tc) (hp : vp ≤ v) (hc : v < vc) :
+    tp ≤ crossTime tp tc vp vc v ∧ crossTime tp tc vp vc v ≤ tc := by
+  unfold crossTime
+  have hd : 0 < vc - vp := by linarith
+  have h0 : 0 ≤ (tc - tp) * (v - vp) / (vc - vp) :=
+    div_nonneg (mul_nonneg (by linarith) (by linarith)) hd.le
+  have h1 : (tc - tp) * (v - vp) / (vc - vp) ≤ tc - tp := by
+    rw [div_le_iff₀ hd]
+    exact mul_le_mul_of_nonneg_left (by linarith) (by linarith)
+  constructor <;> linarith
+
+/-- **in the step, LESSER_THAN**: previous value not below the threshold, current value below
+it ⇒ t_prev ≤ reported time ≤ t_cur. -/
+theorem crossTime_mem_lt (tp tc vp vc v : α) (ht : tp ≤ tc) (hp : v ≤ vp) (hc : vc < v) :
+    tp ≤ crossTime tp tc vp vc v ∧ crossTime tp tc vp vc v ≤ tc := by
+  have e : crossTime tp tc vp vc v = crossTime tp tc (-vp) (-vc) (-v) := by
+    unfold crossTime
+    have : vc - vp ≠ 0 := by intro h; linarith
+    have : -vc - -vp ≠ 0 := by intro h; linarith
+    field_simp
+    ring
+  rw [e]
+  exact crossTime_mem_gt tp tc (-vp) (-vc) (-v) ht (by linarith) (by linarith)
+
+/-- the current value is *strictly* beyond the threshold, so on a step of positive length the
+reported time is strictly before the end of the step -/
+theorem crossTime_lt_cur (tp tc vp vc v : α) (ht : tp < tc)
+    (h : (vp ≤ v ∧ v < vc) ∨ (v ≤ vp ∧ vc < v)) : crossTime tp tc vp vc v < tc := by
+  unfold crossTime
+  rcases h with ⟨hp, hc⟩ | ⟨hp, hc⟩
+  · have hd : 0 < vc - vp := by linarith
+    have : (tc - tp) * (v - vp) / (vc - vp) < tc - tp := by
+      rw [div_lt_iff₀ hd]
+      exact mul_lt_mul_of_pos_left (by linarith) (by linarith)
+    linarith
+  · have hd : 0 < vp - vc := by linarith
+    have e : (tc - tp) * (v - vp) / (vc - vp) = (tc - tp) * (vp - v) / (vp - vc) := by
+      have : vc - vp ≠ 0 := by intro h; linarith
+      have : vp - vc ≠ 0 := ne_of_gt hd
+      field_simp
+      ring
+    have : (tc - tp) * (vp - v) / (vp - vc) < tc - tp := by
+      rw [div_lt_iff₀ hd]
+      exact mul_lt_mul_of_pos_left (by linarith) (by linarith)
+    linarith
+
+/-- previous value exactly on the threshold ⇒ the interpolant is the previous time: the branch
+taken when the previous row already satisfies the condition continues the interpolation. -/
+theorem crossTime_at_prev (tp tc vp vc : α) : crossTime tp tc vp vc vp = tp := by
+  unfold crossTime; simp
+
+/-- **crossing step**: not satisfied before, previous row not beyond the threshold, current row
+beyond it ⇒ satisfied, and the reported time is the interpolant between the two rows. -/
+theorem test_cross (d : PData α) (n : Nat) (c : Cond α) (l : Latch α) (hl : l.sat = false)
+    (hn : 0 < n) (hprev : holds c.dir c.value (poll d c (n-1)) = false)
+    (hcur : holds c.dir c.value (poll d c n) = true) :
+    test d n c l = ⟨true, crossTime (d.time (n-1)) (d.time n) (poll d c (n-1)) (poll d c n) c.value⟩ := by
+  unfold test; simp [hl, hcur, hn, hprev]
+
+/-- **first step**: satisfied on row 0 ⇒ the reported time is the time of that row. -/
+theorem test_first_step (d : PData α) (c : Cond α) (l : Latch α) (hl : l.sat = false)
+    (hcur : holds c.dir c.value (poll d c 0) = true) : test d 0 c l = ⟨true, d.time 0⟩ := by
+  unfold test; simp [hl, hcur]
+
+/-- already beyond the threshold on the previous row (only possible on the first test of a run,
+i.e. the condition holds in the initial state): the previous row's time, no extrapolation -/
+theorem test_already (d : PData α) (n : Nat) (c : Cond α) (l : Latch α) (hl : l.sat = false)
+    (hprev : holds c.dir c.value (poll d c (n-1)) = true)
+    (hcur : holds c.dir c.value (poll d c n) = true) : test d n c l = ⟨true, d.time (n-1)⟩ := by
+  unfold test; simp [hl, hcur, hprev]
+
+/-- **reported time lies within the step** on which the latch closes, whatever the quantity,
+direction, selection and branch: `time (n-1) ≤ reported ≤ time n`. -/
+theorem test_time_in_step (d : PData α) (n : Nat) (c : Cond α) (l : Latch α) (hl : l.sat = false)
+    (ht : d.time (n-1) ≤ d.time n) (hs : (test d n c l).sat = true) :
+    d.time (n-1) ≤ (test d n c l).time ∧ (test d n c l).time ≤ d.time n := by
+  have hcur : holds c.dir c.value (poll d c n) = true := by
+    rcases (test_sat_iff d n c l).mp hs with h | h
+    · rw [hl] at h; exact absurd h (by simp)
+    · exact h
+  by_cases hp : 0 < n ∧ holds c.dir c.value (poll d c (n-1)) = false
+  · rw [test_cross d n c l hl hp.1 hp.2 hcur]
+    show d.time (n-1) ≤ crossTime _ _ _ _ _ ∧ crossTime _ _ _ _ _ ≤ d.time n
+    cases hd : c.dir with
+    | gt =>
+      rw [hd] at hcur hp
+      exact crossTime_mem_gt _ _ _ _ _ ht ((holds_gt_false _ _).mp hp.2) ((holds_gt _ _).mp hcur)
+    | lt =>
+      rw [hd] at hcur hp
+      exact crossTime_mem_lt _ _ _ _ _ ht ((holds_lt_false _ _).mp hp.2) ((holds_lt _ _).mp hcur)
+  · have : test d n c l = ⟨true, d.time (n-1)⟩ := by
+      unfold test; simp [hl, hcur]; intro h1 h2; exact absurd ⟨h1, h2⟩ hp
+    rw [this]
+    exact ⟨le_refl _, ht⟩
+
+/-- the same for a whole run started with a clear latch: the reported time after any number of
+steps k lies within the step j on which the monitored quantity first went beyond the threshold. -/
+theorem run_time_in_crossing_step (d : PData α) (c : Cond α) (j k : Nat) (hj : 1 ≤ j) (hjk : j ≤ k)
+    (hbefore : ∀ i, 1 ≤ i → i < j → holds c.dir c.value (poll d c i) = false)
+    (hat : holds c.dir c.value (poll d c j) = true) (ht : d.time (j-1) ≤ d.time j) :
+    (latchAt d c Latch.clear k).sat = true ∧
+    d.time (j-1) ≤ (latchAt d c Latch.clear k).time ∧ (latchAt d c Latch.clear k).time ≤ d.time j := by
+  rw [latchAt_first d c Latch.clear j k hj hjk rfl hbefore hat]
+  have hs : (test d j c ⟨false, (Latch.clear : Latch α).time⟩).sat = true :=
+    (test_sat_iff _ _ _ _).mpr (Or.inr hat)
+  exact ⟨hs, test_time_in_step d j c _ rfl ht hs⟩
+
+/-! ### and / or combination -/
+
+theorem accumulate_spec (es : List (Entry α)) (o a : Bool) (k : Nat) :
+    let r := es.foldl (fun (acc : Bool × Bool × Nat) (e : Entry α) =>
+      if e.isOr then (acc.1 || e.l.sat, acc.2.1, acc.2.2)
+      else (acc.1, acc.2.1 && e.l.sat, acc.2.2 + 1)) (o, a, k)
+    (r.1 = true ↔ o = true ∨ ∃ e ∈ es, e.isOr = true ∧ e.l.sat = true) ∧
+    (r.2.1 = true ↔ a = true ∧ ∀ e ∈ es, e.isOr = false → e.l.sat = true) ∧
+    (r.2.2 = k + es.countP (fun e => !e.isOr)) := by
+  induction es generalizing o a k with
+  | nil => simp
+  | cons e es ih =>
+    simp only [List.foldl_cons]
+    by_cases he : e.isOr = true
+    · simp only [he, if_true]
+      obtain ⟨h1, h2, h3⟩ := ih (o || e.l.sat) a k
+      refine ⟨?_, ?_, ?_⟩
+      · rw [h1]; simp only [Bool.or_eq_true, List.mem_cons]
+        constructor
+        · rintro ((h | h) | ⟨x, hx, hx2⟩)
+          · exact Or.inl h
+          · exact Or.inr ⟨e, Or.inl rfl, he, h⟩
+          · exact Or.inr ⟨x, Or.inr hx, hx2⟩
+        · rintro (h | ⟨x, hx | hx, hx2⟩)
+          · exact Or.inl (Or.inl h)
+          · subst hx; exact Or.inl (Or.inr hx2.2)
+          · exact Or.inr ⟨x, hx, hx2⟩
+      · rw [h2]; simp only [List.mem_cons]
+        constructor
+        · rintro ⟨ha, hall⟩
+          refine ⟨ha, ?_⟩
+          rintro x (hx | hx) hxo
+          · subst hx; rw [he] at hxo; exact absurd hxo (by simp)
+          · exact hall x hx hxo
+        · rintro ⟨ha, hall⟩
+          exact ⟨ha, fun x hx => hall x (Or.inr hx)⟩
+      · rw [h3]; simp [List.countP_cons, he]
+    · have he' : e.isOr = false := by simpa using he
+      simp only [he', Bool.false_eq_true, if_false]
+      obtain ⟨h1, h2, h3⟩ := ih o (a && e.l.sat) (k+1)
+      refine ⟨?_, ?_, ?_⟩
+      · rw [h1]; simp only [List.mem_cons]
+        constructor
+        · rintro (h | ⟨x, hx, hx2⟩)
+          · exact Or.inl h
+          · exact Or.inr ⟨x, Or.inr hx, hx2⟩
+        · rintro (h | ⟨x, hx | hx, hx2⟩)
+          · exact Or.inl h
+          · subst hx; rw [he'] at hx2; exact absurd hx2.1 (by simp)
+          · exact Or.inr ⟨x, hx, hx2⟩
+      · rw [h2]; simp only [Bool.and_eq_true, List.mem_cons]
+        constructor
+        · rintro ⟨⟨ha, hs⟩, hall⟩
+          refine ⟨ha, ?_⟩
+          rintro x (hx | hx) hxo
+          · subst hx; exact hs
+          · exact hall x hx hxo
+        · rintro ⟨ha, hall⟩
+          exact ⟨⟨ha, hall e (Or.inl rfl) he'⟩, fun x hx => hall x (Or.inr hx)⟩
+      · rw [h3]; simp [List.countP_cons, he']; omega
+
+/-- **combination law**: the stop flag of `postProcess` is
+`(∃ or-condition satisfied) ∨ (#and > 0 ∧ ∀ and-condition satisfied)`. -/
+theorem stopFlag_iff (es : List (Entry α)) :
+    stopFlag es = true ↔
+      (∃ e ∈ es, e.isOr = true ∧ e.l.sat = true) ∨
+      (0 < es.countP (fun e => !e.isOr) ∧ ∀ e ∈ es, e.isOr = false → e.l.sat = true) := by
+  unfold stopFlag accumulate
+  obtain ⟨h1, h2, h3⟩ := accumulate_spec es false true 0
+  simp only at h1 h2 h3
+  simp only [Bool.or_eq_true]
+  rw [h1, h3]
+  by_cases hk : es.countP (fun e => !e.isOr) = 0
+  · simp [hk]
+  · have hpos : 0 < es.countP (fun e => !e.isOr) := Nat.pos_of_ne_zero hk
+    simp only [Nat.zero_add, hk, if_false, h2, hpos, true_and]
+    simp
+
+/-- no conditions at all: never stop -/
+theorem stopFlag_nil : stopFlag ([] : List (Entry α)) = false := rfl
+
+/-- only and-conditions (what the TTP calculator registers): stop iff there is at least one and
+all are satisfied -/
+theorem stopFlag_all_and (es : List (Entry α)) (h : ∀ e ∈ es, e.isOr = false) :
+    stopFlag es = true ↔ es ≠ [] ∧ ∀ e ∈ es, e.l.sat = true := by
+  rw [stopFlag_iff]
+  constructor
+  · rintro (⟨e, he, ho, _⟩ | ⟨hc, hall⟩)
+    · rw [h e he] at ho; exact absurd ho (by simp)
+    · refine ⟨?_, fun e he => hall e he (h e he)⟩
+      rintro rfl; simp at hc
+  · rintro ⟨hne, hall⟩
+    refine Or.inr ⟨?_, fun e he _ => hall e he⟩
+    cases es with
+    | nil => exact absurd rfl hne
+    | cons e es =>
+      have : e.isOr = false := h e (List.mem_cons_self ..)
+      simp [List.countP_cons, this]
+
+/-! ### the run -/
+
+/-- conditions do not interact: after k steps every entry carries the latch of its own
+condition, list order and modes unchanged -/
+theorem evolve_eq (d : PData α) (es : List (Entry α)) (k : Nat) :
+    evolve d es k = es.map (fun e => { e with l := latchAt d e.c e.l k }) := by
+  induction k with
+  | zero => simp [evolve, latchAt]
+  | succ k ih =>
+    show testAll d (k+1) (evolve d es k) = _
+    rw [ih]; unfold testAll
+    simp [List.map_map, Function.comp_def, latchAt]
+
+/-- what the loop returns, in general position (entered at row k with the entries of row k) -/
+theorem run_sound_aux (d : PData α) (tf : α) (es0 : List (Entry α)) (f k m : Nat) (b : Bool)
+    (es' : List (Entry α)) (h : run d tf f k (evolve d es0 k) = (m, b, es')) :
+    es' = evolve d es0 m ∧ k ≤ m ∧ m ≤ k + f ∧
+    (∀ j, k ≤ j → j < m → d.time j < tf) ∧
+    (∀ j, k < j → j < m → stopFlag (evolve d es0 j) = false) ∧
+    (b = true → k < m ∧ stopFlag (evolve d es0 m) = true) ∧
+    (b = false → (k < m → stopFlag (evolve d es0 m) = false) ∧ (¬ d.time m < tf ∨ m = k + f)) := by
+  induction f generalizing k with
+  | zero =>
+    simp only [run, Prod.mk.injEq] at h
+    obtain ⟨rfl, rfl, rfl⟩ := h
+    refine ⟨rfl, le_refl _, by omega, by intro j h1 h2; omega, by intro j h1 h2; omega, by simp, ?_⟩
+    intro _; exact ⟨by intro h; omega, Or.inr rfl⟩
+  | succ f ih =>
+    unfold run at h
+    by_cases ht : d.time k < tf
+    · simp only [ht, if_true] at h
+      have hev : testAll d (k+1) (evolve d es0 k) = evolve d es0 (k+1) := rfl
+      rw [hev] at h
+      by_cases hs : stopFlag (evolve d es0 (k+1)) = true
+      · simp only [hs, if_true, Prod.mk.injEq] at h
+        obtain ⟨rfl, rfl, rfl⟩ := h
+        refine ⟨rfl, by omega, by omega, ?_, by intro j h1 h2; omega, fun _ => ⟨by omega, hs⟩, by simp⟩
+        intro j h1 h2
+        have : j = k := by omega
+        subst this; exact ht
+      · have hs' : stopFlag (evolve d es0 (k+1)) = false := by simpa using hs
+        simp only [hs', Bool.false_eq_true, if_false] at h
+        obtain ⟨e1, e2, e3, e4, e5, e6, e7⟩ := ih (k+1) h
+        refine ⟨e1, by omega, by omega, ?_, ?_, ?_, ?_⟩
+        · intro j h1 h2
+          rcases Nat.eq_or_lt_of_le h1 with h | h
+          · subst h; exact ht
+          · exact e4 j h h2
+        · intro j h1 h2
+          rcases Nat.eq_or_lt_of_le (Nat.succ_le_of_lt h1) with h | h
+          · rw [← h]; exact hs'
+          · exact e5 j h h2
+        · intro hb; exact ⟨by omega, (e6 hb).2⟩
+        · intro hb
+          obtain ⟨g1, g2⟩ := e7 hb
+          refine ⟨?_, ?_⟩
+          · intro _
+            rcases Nat.eq_or_lt_of_le e2 with h | h
+            · rw [← h]; exact hs'
+            · exact g1 h
+          · rcases g2 with g | g
+            · exact Or.inl g
+            · exact Or.inr (by omega)
+    · simp only [ht, if_false, Prod.mk.injEq] at h
+      obtain ⟨rfl, rfl, rfl⟩ := h
+      refine ⟨rfl, le_refl _, by omega, by intro j h1 h2; omega, by intro j h1 h2; omega, by simp, ?_⟩
+      intro _; exact ⟨by intro h; omega, Or.inl ht⟩
+
+/-- **the run stops only when the combination holds, and at the first such step**: if the loop
+reports an early stop at row m, the stop flag is true after step m, false after every earlier
+step, every earlier row was before the end time, and the latches are those of m steps. -/
+theorem run_stop_sound (d : PData α) (tf : α) (es : List (Entry α)) (fuel m : Nat)
+    (es' : List (Entry α)) (h : run d tf fuel 0 es = (m, true, es')) :
+    1 ≤ m ∧ stopFlag (evolve d es m) = true ∧
+    (∀ j, 1 ≤ j → j < m → stopFlag (evolve d es j) = false) ∧
+    (∀ j, j < m → d.time j < tf) ∧ es' = evolve d es m := by
+  obtain ⟨e1, e2, e3, e4, e5, e6, e7⟩ := run_sound_aux d tf es fuel 0 m true es' h
+  obtain ⟨g1, g2⟩ := e6 rfl
+  exact ⟨g1, g2, fun j h1 h2 => e5 j h1 h2, fun j h2 => e4 j (Nat.zero_le _) h2, e1⟩
+
+/-- **otherwise it runs to the end time**: if the loop does not report an early stop (and was
+not cut by the step bound), the stop flag was false after every step and row m is the first
+row at or beyond the end time. -/
+theorem run_end_sound (d : PData α) (tf : α) (es : List (Entry α)) (fuel m : Nat)
+    (es' : List (Entry α)) (h : run d tf fuel 0 es = (m, false, es')) (hm : m < fuel) :
+    ¬ d.time m < tf ∧ (∀ j, j < m → d.time j < tf) ∧
+    (∀ j, 1 ≤ j → j ≤ m → stopFlag (evolve d es j) = false) ∧ es' = evolve d es m := by
+  obtain ⟨e1, e2, e3, e4, e5, e6, e7⟩ := run_sound_aux d tf es fuel 0 m false es' h
+  obtain ⟨g1, g2⟩ := e7 rfl
+  refine ⟨?_, fun j h2 => e4 j (Nat.zero_le _) h2, ?_, e1⟩
+  · rcases g2 with g | g
+    · exact g
+    · omega
+  · intro j h1 h2
+    rcases Nat.eq_or_lt_of_le h2 with h | h
+    · subst h; exact g1 (by omega)
+    · exact e5 j h1 h
+
+theorem run_stop_aux (d : PData α) (tf : α) (es0 : List (Entry α)) (m : Nat)
+    (htime : ∀ j, j < m → d.time j < tf)
+    (hfirst : ∀ j, 1 ≤ j → j < m → stopFlag (evolve d es0 j) = false)
+    (hstop : stopFlag (evolve d es0 m) = true) (f k : Nat) (hk : k < m) (hf : m ≤ k + f) :
+    run d tf f k (evolve d es0 k) = (m, true, evolve d es0 m) := by
+  induction f generalizing k with
+  | zero => omega
+  | succ f ih =>
+    unfold run
+    simp only [htime k hk, if_true]
+    have hev : testAll d (k+1) (evolve d es0 k) = evolve d es0 (k+1) := rfl
+    rw [hev]
+    rcases Nat.eq_or_lt_of_le (Nat.succ_le_of_lt hk) with h | h
+    · have h' : k + 1 = m := h
+      rw [h']; simp [hstop]
+    · have h' : k + 1 < m := h
+      simp only [hfirst (k+1) (by omega) h', Bool.false_eq_true, if_false]
+      exact ih (k+1) h' (by omega)
+
+/-- **the run ends at the first step where the combination holds** (completeness): if m ≥ 1 is
+the first step after which the stop flag is true and the end time was not reached before it,
+the loop stops exactly there. -/
+theorem run_stops_at_first (d : PData α) (tf : α) (es : List (Entry α)) (fuel m : Nat)
+    (hm : 1 ≤ m) (hf : m ≤ fuel) (htime : ∀ j, j < m → d.time j < tf)
+    (hfirst : ∀ j, 1 ≤ j → j < m → stopFlag (evolve d es j) = false)
+    (hstop : stopFlag (evolve d es m) = true) :
+    run d tf fuel 0 es = (m, true, evolve d es m) :=
+  run_stop_aux d tf es m htime hfirst hstop fuel 0 (by omega) (by omega)
+
+theorem run_end_aux (d : PData α) (tf : α) (es0 : List (Entry α)) (N : Nat)
+    (htime : ∀ j, j < N → d.time j < tf) (hend : ¬ d.time N < tf)
+    (hnone : ∀ j, 1 ≤ j → j ≤ N → stopFlag (evolve d es0 j) = false)
+    (f k : Nat) (hk : k ≤ N) (hf : N ≤ k + f) :
+    run d tf f k (evolve d es0 k) = (N, false, evolve d es0 N) := by
+  induction f generalizing k with
+  | zero =>
+    have : k = N := by omega
+    subst this; rfl
+  | succ f ih =>
+    unfold run
+    rcases Nat.eq_or_lt_of_le hk with h | h
+    · subst h; simp [hend]
+    · simp only [htime k h, if_true]
+      have hev : testAll d (k+1) (evolve d es0 k) = evolve d es0 (k+1) := rfl
+      rw [hev]
+      simp only [hnone (k+1) (by omega) (by omega), Bool.false_eq_true, if_false]
+      exact ih (k+1) (by omega) (by omega)
+
+/-- **otherwise it runs to the requested end time** (completeness): if the stop flag is false
+after every step up to the first row N at or beyond the end time, the loop ends at row N. -/
+theorem run_to_end (d : PData α) (tf : α) (es : List (Entry α)) (fuel N : Nat) (hf : N ≤ fuel)
+    (htime : ∀ j, j < N → d.time j < tf) (hend : ¬ d.time N < tf)
+    (hnone : ∀ j, 1 ≤ j → j ≤ N → stopFlag (evolve d es j) = false) :
+    run d tf fuel 0 es = (N, false, evolve d es N) :=
+  run_end_aux d tf es N htime hend hnone fuel 0 (Nat.zero_le _) (by omega)
+
+/-! ### reset and the TTP calculator -/
+
+/-- **reset**: afterwards every latch is clear (not satisfied, time −1) … -/
+theorem resetAll_clear (es : List (Entry α)) : ∀ e ∈ resetAll es, e.l = Latch.clear := by
+  intro e he
+  unfold resetAll at he
+  obtain ⟨x, _, rfl⟩ := List.mem_map.mp he
+  rfl
+
+/-- … the conditions and their modes are kept … -/
+theorem resetAll_keeps (es : List (Entry α)) :
+    (resetAll es).map (fun e => (e.c, e.isOr)) = es.map (fun e => (e.c, e.isOr)) := by
+  unfold resetAll; simp [List.map_map, Function.comp_def]
+
+/-- … and nothing of the previous run's latch state survives: two lists with the same conditions
+and modes are identical after reset. -/
+theorem resetAll_forgets (es es' : List (Entry α))
+    (h : es.map (fun e => (e.c, e.isOr)) = es'.map (fun e => (e.c, e.isOr))) :
+    resetAll es = resetAll es' := by
+  induction es generalizing es' with
+  | nil => cases es' with
+    | nil => rfl
+    | cons _ _ => simp at h
+  | cons e es ih =>
+    cases es' with
+    | nil => simp at h
+    | cons e' es' =>
+      simp only [List.map_cons, List.cons.injEq, Prod.mk.injEq] at h
+      obtain ⟨⟨h1, h2⟩, h3⟩ := h
+      unfold resetAll
+      simp only [List.map_cons, List.cons.injEq]
+      refine ⟨by rw [h1, h2], ?_⟩
+      exact ih es' h3
+
+/-- **TTP, own run only**: the times reported for a temperature do not depend on the latches
+left by the previous temperature's run. -/
+theorem ttpTimes_forgets (d : PData α) (tf : α) (fuel : Nat) (es es' : List (Entry α))
+    (h : es.map (fun e => (e.c, e.isOr)) = es'.map (fun e => (e.c, e.isOr))) :
+    ttpTimes d tf fuel es = ttpTimes d tf fuel es' := by
+  unfold ttpTimes; rw [resetAll_forgets es es' h]
+
+/-- **TTP, what is reported**: with m the last row of that temperature's run, the time reported
+for each condition is the time of the latch obtained from a *clear* latch by the tests on rows
+1..m of that run's history (so `run_time_in_crossing_step` / `latchAt_never` apply: within the
+crossing step of this run, or −1 when the threshold was not reached in this run). -/
+theorem ttpTimes_eq (d : PData α) (tf : α) (fuel : Nat) (es : List (Entry α)) :
+    ttpTimes d tf fuel es =
+      es.map (fun e => (latchAt d e.c Latch.clear (run d tf fuel 0 (resetAll es)).1).time) := by
+  unfold ttpTimes
+  rcases hr : run d tf fuel 0 (resetAll es) with ⟨m, b, es'⟩
+  have := (run_sound_aux d tf (resetAll es) fuel 0 m b es' hr).1
+  simp only [this, evolve_eq]
+  unfold resetAll
+  simp [List.map_map, Function.comp_def]
+
+/-- the TTP calculator registers all its conditions as 'and' -/
+theorem ttpEntries_all_and (cs : List (Cond α)) (ls : List (Latch α)) :
+    ∀ e ∈ ttpEntries cs ls, e.isOr = false := by
+  induction cs generalizing ls with
+  | nil => intro e he; simp [ttpEntries] at he
+  | cons c cs ih =>
+    cases ls with
+    | nil => intro e he; simp [ttpEntries] at he
+    | cons l ls =>
+      intro e he
+      simp only [ttpEntries, List.zipWith_cons_cons, List.mem_cons] at he
+      rcases he with rfl | he
+      · rfl
+      · exact ih ls e he
+
+/-! ### non-vacuity: concrete instances of the hypothesis sets -/
+
+/-- a one-phase history over ℚ: time k = k, volFrac k = k/10 -/
+def demo : PData ℚ :=
+  { time := fun k => k, volFrac := fun k _ => k / 10, Ravg := fun _ _ => 0, drivingForce := fun k _ => 5 - k,
+    nucRate := fun _ _ => 0, precipitateDensity := fun _ _ => 0, composition := fun _ _ => 0 }
+
+def demoC : Cond ℚ := ⟨.volFrac, .gt, 1/4, 0⟩
+
+-- crossing hypotheses (GREATER_THAN) are satisfiable and give the interpolant 2.5
+example : test demo 3 demoC Latch.clear = ⟨true, 5/2⟩ := by
+  unfold test holds poll PData.array crossTime demo demoC Latch.clear; norm_num
+-- LESSER_THAN on a decreasing quantity: drivingForce = 5 - k < 3/2 first at k = 4, reported 3.5
+example : test demo 4 ⟨.drivingForce, .lt, 3/2, 0⟩ Latch.clear = ⟨true, 7/2⟩ := by
+  unfold test holds poll PData.array crossTime demo Latch.clear; norm_num
+example : (1:ℚ) ≤ 2 ∧ (1:ℚ) ≤ 3 ∧ (3:ℚ) < 4 := by norm_num
+example : crossTime (1:ℚ) 2 1 4 3 = 5/3 := by unfold crossTime; norm_num
+-- a run that stops early and one that reaches the end
+example : (run demo 10 20 0 [⟨demoC, true, Latch.clear⟩]).1 = 3 := by
+  simp [run, testAll, stopFlag, accumulate, test, holds, poll, PData.array, demo, demoC, Latch.clear, crossTime]
+  norm_num
+example : (run demo 2 20 0 [⟨demoC, true, Latch.clear⟩]).1 = 2 := by
+  simp [run, testAll, stopFlag, accumulate, test, holds, poll, PData.array, demo, demoC, Latch.clear, crossTime]
+  norm_num
+example : indexOf "B" ["A", "B", "B"] = some 1 := by decide
+
 end KawinV.Props.C19
